@@ -439,7 +439,7 @@ class NumInterp(Interp):
                         raise Unsupported(f'isinstance against {ts}')
                 return res
             if isinstance(n.func, ast.Attribute) and n.func.attr in ('join', 'split', 'rsplit', 'partition', 'rpartition', 'splitlines', 'startswith', 'endswith', 'strip', 'items', 'keys', 'values', 'get', 'index', 'count', 'upper', 'lower', 'format', 'replace',
-                                                                         'removeprefix', 'removesuffix', 'reverse', 'extend', 'zfill', 'rjust', 'ljust', 'copy', 'tolist'):
+                                                                         'removeprefix', 'removesuffix', 'reverse', 'extend', 'zfill', 'rjust', 'ljust', 'copy', 'tolist', 'pop', 'insert', 'remove', 'sort', 'clear'):
                 try:
                     recv = self.ev(n.func.value)
                 except Unsupported:
